@@ -47,7 +47,7 @@ FIRST = ["action_type", "message_type", "action_status"]
 
 VALUES = [
     0, 1, -17, 2 ** 53 + 1, 1.5, -0.0, 1e-07, 1.7976931348623157e308, True, False, None,
-    "", "plain", "with space", "quote\"s and 'single'", "k=v a=b", "café \U0001f600", "line1\nline2", "tab\there",
+    "", "plain", "with space", "quote\"s and 'single'", "k=v a=b", "café \U0001f600", "line1\nline2", "tab\there", "a\n\nb", "x\n \n\t\ny", "sep\u2028in\u2029value\x85end",
     [1, [2, {"k": "v"}], []], {"a": {"b": [None, False]}, "z": 0}, ["a long list of strings"] * 6,
 ]
 import math
@@ -244,8 +244,8 @@ def _strings(v):
 
 
 def check_compact(msg, text):
-    if "\n" in text:
-        return [("compact:not-a-single-line", {"text": text[:200]})]
+    if "\n" in text or len(text.splitlines()) != 1:
+        return [("compact:not-a-single-line", {"text": text[:200], "pieces": len(text.splitlines())})]
     level = "/" + "/".join(str(x) for x in msg["task_level"])
     m = re.match(re.escape(msg["task_uuid"]) + r"\W{0,4}?" + re.escape(level) + r" ", text)
     if not m:
